@@ -5,6 +5,8 @@ Property theorems only; helper lemmas live in Proofs/Lemmas/C16*.lean.
 import Proofs.Lemmas.C16Fit
 import Proofs.Lemmas.C16Header
 import Proofs.Lemmas.C16Offs
+import Proofs.Lemmas.C16Build
+import Proofs.Lemmas.C16Lines
 import Model.Tab.Render
 
 namespace C16
@@ -131,6 +133,30 @@ theorem columns_align (sortCols : List Int → List Nat → List Nat)
 example : f14Table.cells.Pairwise Before := by
   unfold Before; decide
 
+/-- **builder_order**: whatever sequence of `Row/Col/Cell/Span/SetShrink` calls built the table
+(without panicking), its cells are in row-major order, cells of one row do not overlap
+(`a.col + a.span ≤ b.col` for `a` before `b`), and every cell lies inside `cols`. -/
+theorem builder_order (ops : List Op) (t : Table) (h : build ops = some t) :
+    t.cells.Pairwise Before ∧ ∀ c ∈ t.cells, c.col + c.span ≤ t.cols := by
+  have := build_inv ops t h
+  exact ⟨this.1, fun c hc => (this.2 c hc).2⟩
+
+/-- **columns_align_format** (full strength, no order hypothesis left): for a table built through
+the builder API with spans ≥ 1 and ANY permutation `ordered` of its cells (what the unstable sort
+by span may leave), the list `Format` iterates over after its final sort by (row, col) IS the
+builder order, and every printed cell is written with the geometry `CellOK` of `columns_align`. -/
+theorem columns_align_format (ops : List Op) (t : Table) (hb : build ops = some t)
+    (hspan : ∀ c ∈ t.cells, 1 ≤ c.span) (ordered : List Cell) (hperm : ordered.Perm t.cells) :
+    ordered.mergeSort cellLe = t.cells ∧
+    EmitOK (layoutOf true insertSortCols t ordered).offs (layoutOf true insertSortCols t ordered).lm {}
+      (ordered.mergeSort cellLe) := by
+  obtain ⟨hp, hcols⟩ := builder_order ops t hb
+  have hs := mergeSort_restores t.cells ordered hp hspan hperm
+  refine ⟨hs, ?_⟩
+  rw [hs]
+  exact columns_align insertSortCols insertSortCols_perm t ordered t.cells hp
+    (fun c hc => ⟨hperm.symm.subset hc, hc, hspan c hc, hcols c hc⟩)
+
 /-! ### no_trailing_blanks -/
 
 theorem getLast?_append_ne_nil {α : Type} (l l' : List α) (h : l' ≠ []) :
@@ -169,6 +195,30 @@ theorem no_trailing_blanks_partial (offs : List Int) (lm : List Nat) (off : Int)
   · simp only [List.flatten_cons, List.flatten_nil, List.append_nil]
     rw [← List.append_assoc, ← List.append_assoc, getLast?_append_ne_nil _ _ hv,
       getLast?_append_ne_nil _ _ hv]
+
+/-- **no_trailing_blanks** (full strength, on the bytes `Format` returns): for a table built
+through the builder API with spans ≥ 1, formatted under any order left by the unstable sort, if
+every printed cell is single-line and its own text (margin then value) does not end in a blank,
+then in the output no blank is immediately followed by a newline — no line ends in blanks (every
+line, the last included, is terminated by a newline). -/
+theorem no_trailing_blanks (ops : List Op) (t : Table) (hb : build ops = some t)
+    (hspan : ∀ c ∈ t.cells, 1 ≤ c.span) (ordered : List Cell) (hperm : ordered.Perm t.cells)
+    (hclean : ∀ c ∈ t.cells, skipped c = false → CleanCell c) :
+    noBlankNL (format t ordered) = true := by
+  obtain ⟨hs, hok⟩ := columns_align_format ops t hb hspan ordered hperm
+  unfold format emit
+  simp only
+  rw [hs] at hok ⊢
+  have h := emit_fold_outOK _ _ t.cells {} hok hclean ⟨rfl, by simp⟩
+  rw [List.flatten_append]
+  split
+  · simpa using h.1
+  · have := outOK_newlines _ 1 h
+    simpa using this.1
+
+/-- non-trivial instance: the cells of the F14 table are clean -/
+example : ∀ c ∈ f14Table.cells, skipped c = false → CleanCell c := by
+  unfold CleanCell cellText; decide
 
 /-! ### text_csv_same_view -/
 
